@@ -48,56 +48,15 @@ def run(ctx, report: Report) -> None:
                     r2.violation(f'css_match.{q} match_selectors(self.selectors)', mmod.where(c),
                                  f'{q} evaluates the top-level selector list directly instead of through '
                                  f'CSSMatch.match: the document/non-element guards of the match relation are skipped')
-    # (b) verdicts in CSSMatch.select / closest / filter come from self.match
-    for name in ('select', 'closest', 'filter'):
-        fn = mmod.functions.get(f'CSSMatch.{name}')
-        if fn is None:
-            r2.instance({'method': f'CSSMatch.{name}', 'present': False}, key=name)
-            r2.violation(f'css_match.CSSMatch.{name} missing', mmod.where(mmod.classes['CSSMatch']),
-                         f'CSSMatch.{name} no longer exists: the {name} entry point cannot share the per-call matcher '
-                         f'(scope, memo tables) of the call target')
-            continue
-        uses = [c for c in walk_no_nested(fn) if isinstance(c, ast.Call) and call_name(c) == 'self.match']
-        r2.instance({'method': f'CSSMatch.{name}', 'verdicts_via_self.match': len(uses)}, key=name)
-        r2.obligation(bool(uses))
-        if not uses:
-            r2.violation(f'css_match.CSSMatch.{name} verdict', mmod.where(fn),
-                         f'CSSMatch.{name} does not obtain its per-element verdict from CSSMatch.match')
-    # (c) SoupSieve.select -> iselect ; select_one -> select(limit=1)
-    sel = mmod.functions.get('SoupSieve.select')
-    one = mmod.functions.get('SoupSieve.select_one')
-    if sel is None or one is None:
-        raise AnalysisError('SoupSieve.select / select_one not found')
-    ok = any(isinstance(c, ast.Call) and call_name(c) == 'self.iselect' and [unparse(a) for a in c.args] == [
-        sel.args.args[1].arg, 'limit'] for c in ast.walk(sel))
-    r2.instance({'method': 'SoupSieve.select', 'delegates_to_iselect(tag, limit)': ok}, key='select->iselect')
-    r2.obligation(ok)
-    if not ok:
-        r2.violation('css_match.SoupSieve.select delegate', mmod.where(sel),
-                     'SoupSieve.select is no longer list(self.iselect(tag, limit)): select and iselect can diverge')
-    ok = False
-    for c in ast.walk(one):
-        if isinstance(c, ast.Call) and call_name(c) == 'self.select':
-            lim = [k for k in c.keywords if k.arg == 'limit'] or None
-            v = (lim[0].value if lim else (c.args[1] if len(c.args) > 1 else None))
-            ok = isinstance(v, ast.Constant) and v.value == 1
-    r2.instance({'method': 'SoupSieve.select_one', 'delegates_to_select(limit=1)': ok}, key='select_one->select')
-    r2.obligation(ok)
-    if not ok:
-        r2.violation('css_match.SoupSieve.select_one delegate', mmod.where(one),
-                     'SoupSieve.select_one is no longer the first item of self.select(tag, limit=1)')
-    # (d) CSSMatch.select walks the descendants of self.tag (never the target itself)
-    csel = mmod.functions.get('CSSMatch.select')
-    if csel is not None:
-        its = [n.iter for n in ast.walk(csel) if isinstance(n, ast.For)]
-        ok = any(isinstance(i, ast.Call) and call_name(i) == 'self.get_tag_descendants'
-                 and [unparse(a) for a in i.args][:1] == ['self.tag'] for i in its)
-        r2.instance({'method': 'CSSMatch.select', 'iterates_tag_descendants_of_self.tag': ok}, key='select-walk')
-        r2.obligation(ok)
-        if not ok:
-            r2.violation('css_match.CSSMatch.select walk', mmod.where(csel),
-                         'CSSMatch.select no longer iterates self.get_tag_descendants(self.tag): it may yield the '
-                         'target itself or non-descendants')
+    # (b) closest() and filter() of the per-call matcher, as tables over abstract trees with a stand-in for CSSMatch.match: the
+    # verdict of every candidate comes from match(), the candidates are the target and its ancestors (nearest first) / the
+    # element children of the target.  (c) SoupSieve.select / iselect / select_one: soupsieve_methods_table (R4).
+    from .sem import closest_filter_table
+    closest_filter_table(ctx, r2)
+    # (d) CSSMatch.select yields exactly the element descendants of the target, in document order (never the target itself,
+    # never a following sibling): a table on abstract trees
+    from .sem import select_walk_table
+    select_walk_table(ctx, r2)
 
     # ---- R3 ----------------------------------------------------------------------------------------------
     r3 = report.rule('C03-R3', 'guards of the match relation', floor=2)
